@@ -7,6 +7,7 @@ import (
 	"time"
 
 	"verif/mc/core"
+	"verif/mc/props/c01"
 	"verif/mc/props/c02"
 	"verif/mc/props/c03"
 	"verif/mc/props/c04"
@@ -25,6 +26,7 @@ type prop struct {
 }
 
 var props = map[string]prop{
+	"C01": {"model_checking", c01.Main, func(r *core.Run, mode string, raw []byte) { c01.Replay(r, mode, raw) }},
 	"C16": {"model_checking", c16.Main, func(r *core.Run, mode string, raw []byte) { c16.Replay(r, mode, raw) }},
 	"C14": {"model_checking", c14.Main, func(r *core.Run, mode string, raw []byte) { c14.Replay(r, mode, raw) }},
 	"C15": {"model_checking", c15.Main, func(r *core.Run, mode string, raw []byte) { c15.Replay(r, raw) }},
